@@ -334,7 +334,7 @@ def make_cases(pid, impl, tier, seed):
             out.append({'L': L, 'error': repr(e)})
             continue
         m = MG.gen_model(impl, rng, L, lg, lcf, tricky_names=(0.25 if pid == 'C02' else 0.0))
-        if pid in ('C02', 'C09') and (i % 3 == 0 or pid == 'C09'):
+        if pid in ('C01', 'C02', 'C09') and (i % 3 == 0 or pid == 'C09'):
             out.append({'L': L, 'lg': lg, 'm': m, 'stream': 'regenerated', 'regen': make_regen(impl, random.Random(rng.random()), lcf)})
         else:
             out.append({'L': L, 'lg': lg, 'm': m, 'stream': 'random'})
@@ -349,8 +349,14 @@ def make_regen(impl, rng, lcf):
         for _ in range(rng.randint(1, 3)):
             r = rng.random()
             try:
-                if r < 0.4 and m.assets:
+                if r < 0.25 and m.assets:
                     m.remove_asset(rng.choice(m.assets))
+                elif r < 0.4 and m.associations:
+                    c = rng.choice(m.associations)
+                    f = rng.choice(list(m.get_association_field_names(c)))
+                    members = list(getattr(c, f))
+                    if members:
+                        m.remove_asset_from_association(rng.choice(members), c)
                 elif r < 0.7:
                     types = [a.name for a in lcf.lang_graph.assets]
                     t = rng.choice(types)
